@@ -105,3 +105,34 @@ package cache
 //@   float real
 //@   requires cOK(c)
 //@   call aroundDuration#0: assert arg_duration == c.expiry
+
+// the part of doTake outside the barrier: the error of the (possibly shared) load is returned as it is, the caller that ran
+// the load itself is done, a caller that shared somebody else's load decodes the shared bytes
+//@ func (c cacheNode) doTake
+//@   property C06
+//@   ghost at after DoEx#0: de = ret2
+//@   ghost at after DoEx#0: fr = ret1
+//@   ghost at entry: decoded = false
+//@   ghost at after Unmarshal#0: decoded = true
+//@   call DoEx#0: assert arg_key == key
+//@   ensures implies(de != nil, result == de && !decoded)
+//@   ensures implies(de == nil && fr, result == nil && !decoded)
+//@   ensures implies(de == nil && !fr, decoded)
+
+// the public read paths hand the caller's query and key on unchanged; what is cached after a successful load is the loaded
+// value under the same key (TakeWithExpire: with the one jittered expiry that the query was shown)
+//@ func (c cacheNode) TakeCtx
+//@   property C06
+//@   call doTake#0: assert arg_key == key && arg_query == query && arg_v == val
+//@ func (c cacheNode) TakeCtx closure 0
+//@   property C06
+//@   requires cOK(c) && c.expiry >= 2
+//@   call SetCtx#0: assert arg_key == key && arg_val == v
+//@ func (c cacheNode) TakeWithExpireCtx closure 0
+//@   property C06
+//@   call query#0: assert arg0 == v && arg1 == expire
+//@ func (c cacheNode) TakeWithExpireCtx closure 1
+//@   property C06
+//@   float real
+//@   requires c.rds != nil
+//@   call SetWithExpireCtx#0: assert arg_key == key && arg_val == v && arg_expire == expire
